@@ -126,8 +126,68 @@ def check_arith(ctx, op, ptag, gsize, itag, log):
         ctx.validate(k, [[b0, pv, nv] for pv in pvals for nv in nvals], base=None)
 
 
+EXT_SRC = """
+enum EL : long { EL0 = 0 };          // underlying type whose size depends on the ABI (4 bytes in the LP32 guest)
+enum EI : int { EI0 = 0 };           // underlying type with the same size on both sides
+K uint64_t k_add_enuml(uint64_t base, uint64_t p, long n) { S::g_base = base; auto t = mk_tainted<EL*, S>(p); auto r = t + n; return raw_bits(r); }
+K uint64_t k_add_enumi(uint64_t base, uint64_t p, long n) { S::g_base = base; auto t = mk_tainted<EI*, S>(p); auto r = t + n; return raw_bits(r); }
+K uint64_t k_sub_enumi(uint64_t base, uint64_t p, unsigned n) { S::g_base = base; auto t = mk_tainted<EI*, S>(p); auto r = t - n; return raw_bits(r); }
+// index types wider than a pointer (GNU 128-bit integers here; long long on a 32-bit host)
+K uint64_t k_add_int_u128(uint64_t base, uint64_t p, uint64_t hi, uint64_t lo) { S::g_base = base; auto t = mk_tainted<int*, S>(p);
+  unsigned __int128 n = ((unsigned __int128)hi << 64) | lo; auto r = t + n; return raw_bits(r); }
+K uint64_t k_sub_int_s128(uint64_t base, uint64_t p, uint64_t hi, uint64_t lo) { S::g_base = base; auto t = mk_tainted<int*, S>(p);
+  __int128 n = (__int128)(((unsigned __int128)hi << 64) | lo); auto r = t - n; return raw_bits(r); }
+K uint64_t k_idx_long_s128(uint64_t base, uint64_t p, uint64_t hi, uint64_t lo) { S::g_base = base; auto t = mk_tainted<long*, S>(p);
+  __int128 n = (__int128)(((unsigned __int128)hi << 64) | lo); auto& r = t[n]; return (uint64_t)(uintptr_t)&reinterpret_cast<const volatile char&>(r); }
+"""
+
+
+def check_ext(ctx, k, gsize, minus, ibits, signed, known_id=None, known_stride=None):
+    base = ctx.sandbox_base(32)
+    size = 1 << 32
+    p = ctx.sym("p", 64)
+    inreg = ctx.in_region(p, base, size)
+    ctx.assume(inreg if "idx" in k else z3.Or(p == 0, inreg))
+    if ibits == 128:
+        hi, lo = ctx.sym("hi", 64), ctx.sym("lo", 64)
+        n = z3.Concat(hi, lo)
+        args = [base, p, hi, lo]
+        N = z3.SignExt(64, n) if signed else z3.ZeroExt(64, n)
+        W = 192
+    else:
+        n = ctx.sym("n", ibits)
+        args = [base, p, n]
+        N = ext(n, signed, 192)
+        W = 192
+    P = z3.ZeroExt(W - 64, p)
+    E = P - N * gsize if minus else P + N * gsize
+    B = z3.ZeroExt(W - 64, base)
+    inside = z3.And(p != 0, E >= B, E < B + size)
+    # a recorded finding excuses exactly the behaviour "correct, but with the application's stride": anything else is still reported
+    E2 = (P - N * known_stride if minus else P + N * known_stride) if known_id else None
+    inside2 = z3.And(p != 0, E2 >= B, E2 < B + size) if known_id else None
+    paths = ctx.run(k, args)
+    for q in paths:
+        if q.status == "ret":
+            known = [(known_id, z3.And(inside2, z3.ZeroExt(W - 64, q.ret) == E2))] if known_id else []
+            ctx.require(q, z3.And(inside, z3.ZeroExt(W - 64, q.ret) == E), "returns only when the exact address is inside the sandbox, and returns exactly it", known=known)
+        elif q.status == "abort":
+            known = [(known_id, z3.Not(inside2))] if known_id else []
+            ctx.require(q, z3.Not(inside), "aborts only when p is null or the exact address is outside the sandbox", known=known)
+    ctx.only(paths, "ret", "abort")
+    ctx.expect(paths, ret=1, abort=1)
+
+
 def jobs(tier, seed):
     out = []
+    ext_checks = [("k_add_enuml", dict(gsize=4, minus=False, ibits=64, signed=True, known_id="C05-enum-abi-stride", known_stride=8)),
+                  ("k_add_enumi", dict(gsize=4, minus=False, ibits=64, signed=True)),
+                  ("k_sub_enumi", dict(gsize=4, minus=True, ibits=32, signed=False)),
+                  ("k_add_int_u128", dict(gsize=4, minus=False, ibits=128, signed=False)),
+                  ("k_sub_int_s128", dict(gsize=4, minus=True, ibits=128, signed=True)),
+                  ("k_idx_long_s128", dict(gsize=4, minus=False, ibits=128, signed=True))]
+    out.append(Job("C05_B32_ext", C.PRELUDE + "using S = B32;\n" + EXT_SRC,
+                   [dict(name="B32 " + k, fn=check_ext, kw=dict(k=k, **kw)) for k, kw in ext_checks], flags=["-fno-exceptions", "-std=gnu++17"], native=False))
     backends = [("B32", 32, 4)] + ([("B16", 16, 2)] if tier == "thorough" else [])
     for sbx, log, pb in backends:
         for ptag, pcxx, gsize in pointees(pb):
